@@ -105,6 +105,23 @@ pub fn replay(sink: &mut Sink, toks: &[&str]) {
     match toks[0] { "rawtop" => emit_top(sink, &cfg, &b, "replay"), "rawstr" => emit_string(sink, &cfg, &b, "replay"), _ => eprintln!("rawelems cases are regenerated from the seed") }
 }
 
+/// C14 under raw_value: a RawValue wraps a `str`; bytes that are not UTF-8 must never reach it from any source (the reader path
+/// checks its own buffer with `String::from_utf8`). Every invalid-UTF-8 class inside strings and keys at top level, as array
+/// element and as object value (op `rawtop`, judged for C14 by the UTF-8 validity of every text returned).
+pub fn run_c14(sink: &mut Sink, _thorough: bool, _seed: u64) {
+    let cfg = cfg_tag();
+    let bad: [&[u8]; 14] = [b"\xff", b"\xce\xf8", b"\xc0\x80", b"\xe0\x80\x80", b"\xed\xa0\x80", b"\xf4\x90\x80\x80", b"\xf0\x9f", b"\x80", b"a\xffb", b"\xc3", b"\xe2\x82", b"\xf8\x88\x80\x80\x80",
+                            b"\xc3\xa9\xff", b"\xef\xbf"];
+    for b in bad.iter() {
+        let lit: Vec<u8> = [b"\"".as_ref(), b, b"\""].concat();
+        for doc in [lit.clone(), [b" ".as_ref(), &lit, b" "].concat(), [b"[1,".as_ref(), &lit, b",2]"].concat(), [b"{\"k\":".as_ref(), &lit, b"}"].concat(),
+                    [b"{".as_ref(), &lit, b":1}"].concat(), [b"[[".as_ref(), &lit, b"]]"].concat()] {
+            emit_top(sink, &cfg, &doc, "c14-utf8");
+        }
+    }
+    for ok in ["\"\u{e9}\"", "[\"\u{10348}\", 1]", "{\"\u{20ac}\":\"x\"}"] { emit_top(sink, &cfg, ok.as_bytes(), "c14-utf8-ok"); }
+}
+
 pub fn run(sink: &mut Sink, thorough: bool, seed: u64) {
     let mut r = Rng::new(seed);
     let cfg = cfg_tag();
